@@ -32,7 +32,8 @@ Record world : Type := {
   w_fns : list (string * fdef);             (* the i-th function sees functions 0..i *)
   w_foreign : list string;
   w_structs : list (string * list string);
-  w_last : option (value Q)                 (* ans / _ *)
+  w_last : option (value Q);                (* ans / _ *)
+  w_units : list string                     (* base units defined so far *)
 }.
 
 (* the LATEST binding of x: its index and payload *)
@@ -127,6 +128,7 @@ Fixpoint eval (n : nat) (W : world) (vg vn vf : nat) (L : list (string * value Q
                     end
               end
           end
+      | EUnit x => if mem x (w_units W) then Ok (VQ (q_unit O x)) else Wrong
       | EUn op a => bind (ev a) (apply_un O op)
       | EBin op a b => bind (ev a) (fun va => bind (ev b) (fun vb => apply_bin O op va vb))
       | ECall f args =>
@@ -194,7 +196,7 @@ Record rstate : Type := {
 }.
 
 Definition rinit : rstate :=
-  {| r_world := {| w_globals := []; w_fns := []; w_foreign := []; w_structs := []; w_last := None |};
+  {| r_world := {| w_globals := []; w_fns := []; w_foreign := []; w_structs := []; w_last := None; w_units := [] |};
      r_out := []; r_res := None |}.
 
 Definition top_eval (n : nat) (W : world) (e : expr Q) : res (value Q) :=
@@ -206,22 +208,22 @@ Definition exec_stmt (n : nat) (s : stmt Q) (st : rstate) : res rstate :=
   | SExpr e =>
       bind (top_eval n W e) (fun v =>
         Ok {| r_world := {| w_globals := w_globals W; w_fns := w_fns W; w_foreign := w_foreign W;
-                            w_structs := w_structs W; w_last := Some v |};
+                            w_structs := w_structs W; w_last := Some v; w_units := w_units W |};
               r_out := r_out st; r_res := Some v |})
   | SLet x e =>
       bind (top_eval n W e) (fun v =>
         Ok {| r_world := {| w_globals := w_globals W ++ [(x, v)]; w_fns := w_fns W;
-                            w_foreign := w_foreign W; w_structs := w_structs W; w_last := w_last W |};
+                            w_foreign := w_foreign W; w_structs := w_structs W; w_last := w_last W; w_units := w_units W |};
               r_out := r_out st; r_res := r_res st |})
   | SFn f params wl body =>
       let fd := {| fd_params := params; fd_locals := wl; fd_body := body;
                    fd_nglob := length (w_globals W); fd_nforeign := length (w_foreign W) |} in
       Ok {| r_world := {| w_globals := w_globals W; w_fns := w_fns W ++ [(f, fd)];
-                          w_foreign := w_foreign W; w_structs := w_structs W; w_last := w_last W |};
+                          w_foreign := w_foreign W; w_structs := w_structs W; w_last := w_last W; w_units := w_units W |};
             r_out := r_out st; r_res := r_res st |}
   | SForeign f =>
       Ok {| r_world := {| w_globals := w_globals W; w_fns := w_fns W;
-                          w_foreign := w_foreign W ++ [f]; w_structs := w_structs W; w_last := w_last W |};
+                          w_foreign := w_foreign W ++ [f]; w_structs := w_structs W; w_last := w_last W; w_units := w_units W |};
             r_out := r_out st; r_res := r_res st |}
   | SStruct sn fs =>
       let structs' := match assoc sn (w_structs W) with
@@ -229,12 +231,18 @@ Definition exec_stmt (n : nat) (s : stmt Q) (st : rstate) : res rstate :=
                       | None => w_structs W ++ [(sn, fs)]
                       end in
       Ok {| r_world := {| w_globals := w_globals W; w_fns := w_fns W; w_foreign := w_foreign W;
-                          w_structs := structs'; w_last := w_last W |};
+                          w_structs := structs'; w_last := w_last W; w_units := w_units W |};
             r_out := r_out st; r_res := r_res st |}
   | SProc name args =>
       bind (evals (top_eval n W) args) (fun vs =>
         bind (proc O name vs) (fun lines =>
           Ok {| r_world := W; r_out := r_out st ++ lines; r_res := r_res st |}))
+  | SDim => Ok st
+  | SUnitBase u =>
+      Ok {| r_world := {| w_globals := w_globals W; w_fns := w_fns W; w_foreign := w_foreign W;
+                          w_structs := w_structs W; w_last := w_last W; w_units := w_units W ++ [u] |};
+            r_out := r_out st; r_res := r_res st |}
+  | SType text => Ok {| r_world := W; r_out := r_out st ++ [text]; r_res := r_res st |}
   end.
 
 Fixpoint exec_stmts (n : nat) (p : program Q) (st : rstate) : res rstate :=
